@@ -18,28 +18,32 @@ InRange(tr, n) == /\ tr.root \in 0..n
 
 TraceInit == Init /\ l = 1
 
+\* the property-level judgement of one recorded call (evaluated as a value: see "= TRUE" below)
+Accept(e, cur) ==
+  LET dom == 1..e.n
+      pre == ToTree(e.pre)
+      post == ToTree(e.post)
+  IN /\ InRange(pre, e.n) /\ InRange(post, e.n)
+     /\ Finite(pre, dom)
+     /\ (e.chain = 1 => pre = cur)
+     /\ LET Spre == Nodes(pre, pre.root) IN
+        CASE e.op = 1 -> /\ GoodRbt(post, Spre \cup {e.k})
+                         /\ e.ret = (IF e.k \in Spre THEN e.k ELSE 0)
+                         /\ (e.k \in Spre => post = pre)
+          [] e.op = 2 -> /\ e.k \in Spre
+                         /\ GoodRbt(post, Spre \ {e.k})
+                         /\ e.ret = 0
+          [] e.op = 3 -> /\ post = pre
+                         /\ e.ret = (IF e.k \in Spre THEN e.k ELSE 0)
+          [] OTHER -> FALSE
+
+\* every event is consumed; a rejected one is reported (TRACE-BAD <index>) and validation goes on
 Step ==
   /\ l <= Len(Tr)
-  /\ LET e == Tr[l]
-         dom == 1..e.n
-         pre == ToTree(e.pre)
-         post == ToTree(e.post)
-     IN /\ InRange(pre, e.n) /\ InRange(post, e.n)
-        /\ Finite(pre, dom)
-        /\ (e.chain = 1 => pre = t)
-        /\ LET Spre == Nodes(pre, pre.root) IN
-           /\ CASE e.op = 1 -> /\ GoodRbt(post, Spre \cup {e.k}) = TRUE
-                               /\ e.ret = (IF e.k \in Spre THEN e.k ELSE 0)
-                               /\ (e.k \in Spre => post = pre)
-                [] e.op = 2 -> /\ e.k \in Spre
-                               /\ GoodRbt(post, Spre \ {e.k}) = TRUE
-                               /\ e.ret = 0
-                [] e.op = 3 -> /\ post = pre
-                               /\ e.ret = (IF e.k \in Spre THEN e.k ELSE 0)
-                [] OTHER -> FALSE
-           /\ t' = post /\ S' = Nodes(post, post.root)
-        /\ lastOp' = (CASE e.op = 1 -> "ins" [] e.op = 2 -> "rem" [] OTHER -> "get")
-        /\ lastArg' = e.k /\ lastRet' = e.ret /\ lastCase' = {}
+  /\ LET e == Tr[l] IN
+     /\ (IF Accept(e, t) = TRUE THEN TRUE ELSE PrintT(<<"TRACE-BAD", l>>))
+     /\ t' = ToTree(e.post) /\ S' = {}
+     /\ lastOp' = "trace" /\ lastArg' = e.k /\ lastRet' = e.ret /\ lastCase' = {}
   /\ l' = l + 1
 
 TraceNext == Step
